@@ -358,8 +358,10 @@ func lexExpr(name, input string) *lexer {
 // run runs the state machine for the lexer.
 func (l *lexer) run() {
 	for l.state != nil {
+		verifLex("step", l, int(l.pos), 0)
 		l.state = l.state(l)
 	}
+	verifLex("close", l, 0, 0)
 	close(l.items)
 }
 
@@ -392,6 +394,7 @@ func (l *lexer) emit(t itemType) {
 		l.pos = ast.Pos(len(l.input))
 	}
 	l.lastEmit = item{t, l.pos, l.input[l.start:l.pos]}
+	verifLex("emit", l, int(t), int(l.pos))
 	l.items <- l.lastEmit
 	l.start = l.pos
 }
@@ -437,6 +440,7 @@ func (l *lexer) columnNumber(pos ast.Pos) int {
 // errorf returns an error item and terminates the scan by passing
 // back a nil pointer that will be the next state, terminating l.nextItem.
 func (l *lexer) errorf(format string, args ...interface{}) stateFn {
+	verifLex("emit", l, int(itemError), int(l.pos))
 	l.items <- item{itemError, l.pos, fmt.Sprintf(format, args...)}
 	return nil
 }
